@@ -99,6 +99,10 @@ def format_lines(fake_path, tags):
 
 PO_EXT = ('.po', '.pot', '.mo', '.gmo')
 
+def is_po_member(rel):
+    """a PO or MO file by name: extension .po/.pot/.mo/.gmo (a dot-file such as `.mo` has no extension)"""
+    return os.path.splitext(rel)[-1] in PO_EXT
+
 def build_deb(work, name, members, symlinks=(), dirs=()):
     """members: {relative path: bytes} → path of the .deb (built with the real dpkg-deb)"""
     stage = os.path.join(work.root, name + '.stage')
@@ -187,7 +191,7 @@ def expected_member_blocks(xroot, members, fake_root, via):
     from lib import cli
     blocks = {}
     for rel in members:
-        if not rel.endswith(PO_EXT):
+        if not is_po_member(rel):
             continue
         real = os.path.join(xroot, rel)
         if via == 'inproc':
